@@ -211,4 +211,93 @@ def deltaChangeApply {α ε} (loc : LocFn α ε) (failsafe : Bool) (obs hist fut
     Except (Err ε) (Arr3 (Elem α)) :=
   applyGrid (cellFn loc obs hist fut) failsafe obs.length nx ny m
 
+/-! ### the pool in detail: chunking, and a debiaser instance that carries state
+
+  `Pool.starmap(func, iterable)` cuts the argument list into consecutive chunks of `chunksize` tasks
+  (`Pool._get_tasks`), default `chunksize = ceil(n / (4 * processes))` (`Pool._map_async`).  One chunk is one
+  task of the pool: it is pickled together with `func` — here the bound method of the debiaser, i.e. a *copy of
+  the instance* — and a worker runs `list(map(func, chunk))`: the tasks of a chunk run in order on that one copy,
+  the first exception ends the chunk.  The chunk results are stored by chunk index and concatenated.
+  The parent's instance is never touched by a parallel run.
+
+  The instance state is modelled as a value `s : σ` that the location function may read and replace:
+  `f s c = (result, s')`.  Serial: the state is threaded through the cells in `ndindex` order.  -/
+
+/-- consecutive chunks of `k` elements, the last one possibly shorter (`fuel` ≥ length suffices) -/
+def chunksAux {β} (k : Nat) : Nat → List β → List (List β)
+  | 0, _ => []
+  | fuel + 1, l =>
+    match l with
+    | [] => []
+    | _ :: _ => l.take k :: chunksAux k fuel (l.drop k)
+
+/-- `Pool._get_tasks(func, it, k)`: the chunks (for `k ≥ 1`; the library never passes 0 for a non-empty list) -/
+def chunksOf {β} (k : Nat) (l : List β) : List (List β) := chunksAux k l.length l
+
+/-- the default chunk size of `Pool._map_async` for `n` tasks and `p` worker processes -/
+def defaultChunksize (n p : Nat) : Nat :=
+  if n = 0 then 0 else if n % (p * 4) = 0 then n / (p * 4) else n / (p * 4) + 1
+
+/-- a location function of an instance with state: the result and the state it leaves behind -/
+abbrev StCell (σ α ε : Type) := σ → Cell → Except ε (List α) × σ
+
+/-- the location function never changes the instance (also not when it raises) -/
+def PureSt {σ α ε} (f : StCell σ α ε) : Prop := ∀ s c, (f s c).2 = s
+
+/-- one iteration of the serial loop on an instance in state `st.2` -/
+def serialStepSt {σ α ε} (f : StCell σ α ε) (failsafe : Bool) (T nx ny : Nat)
+    (st : Arr3 (Elem α) × σ) (c : Cell) : Except (Err ε) (Arr3 (Elem α) × σ) :=
+  match runCatch failsafe (f st.2 c).1 with
+  | .error e => .error e
+  | .ok r =>
+    match setColumn T nx ny st.1 c r with
+    | .error e => .error e
+    | .ok out => .ok (out, (f st.2 c).2)
+
+/-- serial run on an instance in state `s0`: the array and the state the instance is left in -/
+def applySerialSt {σ α ε} (f : StCell σ α ε) (failsafe : Bool) (T nx ny : Nat) (s0 : σ) :
+    Except (Err ε) (Arr3 (Elem α) × σ) :=
+  (ndindex nx ny).foldlM (serialStepSt f failsafe T nx ny) (empty3 T nx ny, s0)
+
+/-- one pool task: `list(map(func, chunk))` on a copy of the instance in state `s` -/
+def chunkTask {σ α ε} (f : StCell σ α ε) (failsafe : Bool) : σ → List Cell → Except (Err ε) (List (CellResult α))
+  | _, [] => .ok []
+  | s, c :: cs =>
+    match runCatch failsafe (f s c).1 with
+    | .error e => .error e
+    | .ok r =>
+      match chunkTask f failsafe (f s c).2 cs with
+      | .error e => .error e
+      | .ok rs => .ok (r :: rs)
+
+/-- `for k, index in enumerate(indices): output[:, index[0], index[1]] = result[k]` -/
+def writeBack {α ε} (T nx ny : Nat) (res : List (CellResult α)) : Except (Err ε) (Arr3 (Elem α)) :=
+  ((pairIndices nx ny).zip res).foldlM (fun out cr => setColumn T nx ny out cr.1 cr.2) (empty3 T nx ny)
+
+/-- `parallel_map_over_locations` with chunk size `k`; `sched` = completion order of the *chunks*.
+    Every chunk starts from a copy of the instance in the parent's state `s0`; the parent keeps `s0`. -/
+def applyParallelSt {σ α ε} (f : StCell σ α ε) (failsafe : Bool) (T nx ny : Nat) (s0 : σ) (k : Nat)
+    (sched : List Nat) : Except (Err ε) (Arr3 (Elem α) × σ) :=
+  match starmap (chunkTask f failsafe s0) (chunksOf k (pairIndices nx ny)) sched with
+  | .error e => .error e
+  | .ok res =>
+    match writeBack T nx ny res.flatten with
+    | .error e => .error e
+    | .ok out => .ok (out, s0)
+
+/-! ### keyword arguments of `apply` -/
+
+/-- `apply_location(obs, cm_hist, cm_future, **kwargs)` -/
+abbrev LocFnKw (κ α ε : Type) := κ → LocFn α ε
+
+/-- `Debiaser.apply(obs, cm_hist, cm_future, …, **kwargs)` -/
+def debiaserApplyKw {κ α ε} (loc : LocFnKw κ α ε) (kw : κ) (failsafe : Bool) (obs hist fut : Arr3 α) (nx ny : Nat)
+    (m : Mode) : Except (Err ε) (Arr3 (Elem α)) :=
+  debiaserApply (loc kw) failsafe obs hist fut nx ny m
+
+/-- `DeltaChange.apply(obs, cm_hist, cm_future, …, **kwargs)` -/
+def deltaChangeApplyKw {κ α ε} (loc : LocFnKw κ α ε) (kw : κ) (failsafe : Bool) (obs hist fut : Arr3 α) (nx ny : Nat)
+    (m : Mode) : Except (Err ε) (Arr3 (Elem α)) :=
+  deltaChangeApply (loc kw) failsafe obs hist fut nx ny m
+
 end Model.Grid
